@@ -61,7 +61,7 @@ Lemma sr_norm_closed_form cfg k n p :
 Proof.
   unfold sr_norm_pvalue, corrected. nR. cbv zeta.
   canon_to (k - n * p). canon_to (n * p * (1 - p)).
-  destruct (sr_correction cfg); cbn [andb negb].
+  destruct (sr_correction cfg); rewrite ?andb_true_r, ?andb_false_r; cbn [andb negb].
   - destruct (Req_EM_T (k - n * p) 0) as [E|E]; cbn [negb].
     + rewrite E. destruct (Rlt_dec 0 0); [lra|]. unfold Rmax. destruct (Rle_dec (0 - 1 / 2) 0); [reflexivity | lra].
     + destruct (Rlt_dec (k - n * p) 0); reflexivity.
